@@ -36,13 +36,17 @@ DivFZero2 == ABin("/", AInt(3), ACall("float", <<AStr(<<48>>)>>))
 \* a failing evaluation as the RIGHT operand of a concatenation / of arithmetic
 ConcFail == ABin("+", AStr(<<110, 61>>), ACall("str", <<ABin("/", AInt(10), ACall("strlen", <<AStr(<<>>)>>))>>))
 MathFail == ABin("-", AInt(7), ABin("/", AInt(1), ACall("strlen", <<AStr(<<>>)>>)))
+\* a failing evaluation inside the second / third argument of substr; a bare len() (a plain integer) as key or value
+SubFail2 == ACall("substr", <<AStr(<<97, 98, 99, 100>>), ABin("/", AInt(6), ABin("-", AInt(2), AInt(2))), AInt(3)>>)
+SubFail3 == ACall("substr", <<AStr(<<97, 98, 99, 100>>), AInt(1), ABin("/", AInt(6), ACall("strlen", <<AStr(<<>>)>>))>>)
+LenVal == ACall("len", <<ACall("split", <<AStr(<<97, 44, 98, 44, 99>>), AStr(<<44>>)>>)>>)
 KeyOnKey == ABin("+", AKey, AStr(<<98>>))                                             \* `key` inside a KEY expression is the empty key
 BadDist == ACall("l2_distance", <<ACall("list", <<AInt(1), AInt(2)>>), ACall("list", <<AInt(1)>>)>>)
 
 KeyPool == { AStr(k1), AStr(k2), AInt(7), ABin("+", AStr(<<107>>), AStr(<<51>>)), ACall("upper", <<AStr(k4)>>),
-             ACall("lower", <<AStr(<<75, 49>>)>>), DivZero, KeyOnKey, ConcFail, AStr(<<97, 98, 255, 99>>) }
+             ACall("lower", <<AStr(<<75, 49>>)>>), DivZero, KeyOnKey, ConcFail, AStr(<<97, 98, 255, 99>>), SubFail2, LenVal }
 ValPool == { AStr(<<>>), AStr(<<118, 49>>), AInt(5), ABin("+", AStr(<<118, 95>>), AKey), ACall("upper", <<ABin("+", AStr(<<118>>), AKey)>>),
-             ACall("str", <<ACall("strlen", <<AKey>>)>>), BadDist, AFlt(3, 1), DivFZero, DivFZero2, ConcFail, MathFail }
+             ACall("str", <<ACall("strlen", <<AKey>>)>>), BadDist, AFlt(3, 1), DivFZero, DivFZero2, ConcFail, MathFail, SubFail2, SubFail3, LenVal }
 SmallKeys == { AStr(k1), ACall("lower", <<AStr(<<75, 49>>)>>), AStr(k2), KeyOnKey }
 SmallVals == { AStr(<<>>), AStr(<<118, 49>>), ABin("+", AStr(<<118, 95>>), AKey), BadDist, DivFZero, ConcFail, ACall("upper", <<AKey>>) }
 
